@@ -594,6 +594,14 @@ func genStreams(w *bufio.Writer, rng *hx.Rng, tier string) {
 		}
 	}
 	genC04PutHeartbeat(w, rng, tier, "c04.stream")
+	// the real heartbeat goroutine against many owners in blockGet (lock order blockedMu / stream.mu)
+	fmt.Fprintln(w, "c04.hbstress 1500 4 1300")
+	fmt.Fprintln(w, "c04.hbstress 600 3 1100")
+	if tier == "thorough" {
+		for i := 0; i < 6; i++ {
+			fmt.Fprintf(w, "c04.hbstress %d %d %d\n", 400+300*i, 2+i%4, 1200+100*i)
+		}
+	}
 	// whole pipeline: a never-drying stream and another one charged in the same burst
 	nb := 4
 	if tier == "thorough" {
